@@ -208,7 +208,10 @@ def r1_coverage(ctx):
               "reproducible order (set order depends on PYTHONHASHSEED)")
     if not (isinstance(lp.target, ast.Name) and lp.target.id == "key"):
         raise Undecided("settings loop variable is not `key`")
-    leaves = _leaves(lp.body, [], listvar)
+    from ..symres import Resolver as _Res
+    res_ = _Res(fn, keep=("key",))
+    leaves = [([(res_.resolve(t), pol) for t, pol in conds], acts)
+              for conds, acts in _leaves(lp.body, [], listvar)]
     for K in dflt:
         applicable = []
         for conds, acts in leaves:
